@@ -213,8 +213,9 @@ where
         //
         let counter = HashMap::<u64, u64>::new();
         //
-        let mut rng = ThreadRng::default();
-        let seed = rng.next_u64();
+        let rng = ThreadRng::default();
+        // a fixed default seed : two instances must give the same signatures (see change_rng_seed)
+        let seed = 0x9e3779b97f4a7c15_u64;
         //
         ProbOrdMinHash2 {
             m,
